@@ -49,7 +49,7 @@ def mkrb(lead):
 
     def z(*t, dt=float):
         return jnp.zeros(lead + t, dt)
-    obs = {"cam": {"pix": z(2)}, "tag": z(dt=int)}
+    obs = {"cam": {"pix": z(2), "img": z(2, 2)}, "tag": z(dt=int)}       # img: an image-like leaf (two feature axes)
     act = (z(dt=int), {"torque": z(1)})
     return RolloutBuffer(observations=obs, actions=act, rewards=z(), dones=z(dt=bool), log_probs=z(), values=z(), states=UFPolState(z(1)),
                          action_masks=z(3, dt=bool), returns=z(), advantages=z())
